@@ -1,15 +1,337 @@
-//! C13 harness (stub).
+//! C13: a sketch's md5sum always reflects its current contents.
+//!
+//! Request lines
+//!   case <n> <vec|tree> num=<n> scaled=<s> mh=<max_hash> track=<0|1> otrack=<0|1> k=<ksize>
+//!   mutators (answer `mins=<list>` or `err <Variant>`):
+//!     add <h> <a> | set <h> <a> | rm <h> | rmmany <h,..> | clear | merge | enable | disable | inflate
+//!   observers:
+//!     md5   -> hex digest through `md5sum()`
+//!     cmd5  -> hex digest through the C API `kmerminhash_md5sum` (vector type only)
+//!     clone -> the sketch is replaced by its `Clone`; answers the clone's md5sum
+//!     copy  -> the *other* sketch becomes a `Clone` of this one; answers the copy's md5sum
+//!     eq    -> `main == other` (`true` / `false`)
+//!   every op except `eq` takes the prefix `o.` to act on the second sketch (binary ops then use the
+//!   main sketch as their operand).
+//! The generator calls an observer BEFORE most mutators — the order under which a forgotten cache
+//! invalidation shows.
+use sourmash::encodings::HashFunctions;
+use sourmash::ffi::minhash::{kmerminhash_md5sum, SourmashKmerMinHash};
+use sourmash::ffi::utils::ForeignObject;
+use sourmash::sketch::minhash::{max_hash_for_scaled, KmerMinHash, KmerMinHashBTree};
 use verif_harness::*;
 
-fn gen(_a: &Args) {
-    let mut o = Out::new();
-    o.case("stub");
+#[derive(Clone)]
+enum Sk {
+    V(KmerMinHash),
+    T(KmerMinHashBTree),
 }
 
-fn step(_: &mut (), ws: &[&str]) -> String {
-    match ws[0] {
-        "case" => "ok".into(),
+fn err_name(e: &sourmash::Error) -> String {
+    let d = format!("{:?}", e);
+    let n: String = d.chars().take_while(|c| c.is_alphanumeric()).collect();
+    format!("err {}", n)
+}
+
+impl Sk {
+    fn new(tree: bool, scaled: u64, k: u32, num: u32, track: bool) -> Sk {
+        if tree {
+            Sk::T(KmerMinHashBTree::new(scaled, k, HashFunctions::Murmur64Dna, 42, track, num))
+        } else {
+            Sk::V(KmerMinHash::new(scaled, k, HashFunctions::Murmur64Dna, 42, track, num))
+        }
+    }
+    fn max_hash(&self) -> u64 {
+        match self {
+            Sk::V(m) => m.max_hash(),
+            Sk::T(m) => m.max_hash(),
+        }
+    }
+    fn mins(&self) -> String {
+        format!(
+            "mins={}",
+            show_nats(match self {
+                Sk::V(m) => m.mins(),
+                Sk::T(m) => m.mins(),
+            })
+        )
+    }
+    fn md5(&self) -> String {
+        match self {
+            Sk::V(m) => m.md5sum(),
+            Sk::T(m) => m.md5sum(),
+        }
+    }
+}
+
+struct St {
+    main: Option<Sk>,
+    other: Option<Sk>,
+}
+
+fn kv<'a>(ws: &'a [&str], key: &str) -> &'a str {
+    for w in ws {
+        if let Some(v) = w.strip_prefix(key) {
+            if let Some(v) = v.strip_prefix('=') {
+                return v;
+            }
+        }
+    }
+    panic!("missing {}", key)
+}
+
+fn step(st: &mut St, ws: &[&str]) -> String {
+    if ws[0] == "case" {
+        let tree = ws[2] == "tree";
+        let scaled: u64 = kv(ws, "scaled").parse().unwrap();
+        let mh: u64 = kv(ws, "mh").parse().unwrap();
+        let num: u32 = kv(ws, "num").parse().unwrap();
+        let k: u32 = kv(ws, "k").parse().unwrap();
+        let track = kv(ws, "track") == "1";
+        let otrack = kv(ws, "otrack") == "1";
+        let main = Sk::new(tree, scaled, k, num, track);
+        if main.max_hash() != mh {
+            st.main = None;
+            st.other = None;
+            return format!("err max_hash {}", main.max_hash());
+        }
+        st.main = Some(main);
+        st.other = Some(Sk::new(tree, scaled, k, num, otrack));
+        return "ok".into();
+    }
+    if ws[0] == "eq" {
+        return match (st.main.as_ref().unwrap(), st.other.as_ref().unwrap()) {
+            (Sk::V(a), Sk::V(b)) => (a == b).to_string(),
+            (Sk::T(a), Sk::T(b)) => (a == b).to_string(),
+            _ => unreachable!(),
+        };
+    }
+    let (on_other, op) = match ws[0].strip_prefix("o.") {
+        Some(op) => (true, op),
+        None => (false, ws[0]),
+    };
+    let (mut tgt, mut src) = (st.main.take().unwrap(), st.other.take().unwrap());
+    if on_other {
+        std::mem::swap(&mut tgt, &mut src);
+    }
+    let n = |i: usize| -> u64 { ws[i].parse().unwrap() };
+    let unit = |r: Result<(), sourmash::Error>, t: &Sk| -> String {
+        match r {
+            Ok(()) => t.mins(),
+            Err(e) => err_name(&e),
+        }
+    };
+    let out: String = match (op, &mut tgt) {
+        ("add", Sk::V(m)) => {
+            m.add_hash_with_abundance(n(1), n(2));
+            tgt.mins()
+        }
+        ("add", Sk::T(m)) => {
+            m.add_hash_with_abundance(n(1), n(2));
+            tgt.mins()
+        }
+        ("set", Sk::V(m)) => {
+            m.set_hash_with_abundance(n(1), n(2));
+            tgt.mins()
+        }
+        ("rm", Sk::V(m)) => {
+            m.remove_hash(n(1));
+            tgt.mins()
+        }
+        ("rm", Sk::T(m)) => {
+            m.remove_hash(n(1));
+            tgt.mins()
+        }
+        ("rmmany", Sk::V(m)) => {
+            let r = m.remove_many(parse_nats(ws[1]));
+            unit(r, &tgt)
+        }
+        ("rmmany", Sk::T(m)) => {
+            let r = m.remove_many(parse_nats(ws[1]));
+            unit(r, &tgt)
+        }
+        ("clear", Sk::V(m)) => {
+            m.clear();
+            tgt.mins()
+        }
+        ("clear", Sk::T(m)) => {
+            m.clear();
+            tgt.mins()
+        }
+        ("merge", Sk::V(m)) => {
+            let r = match &src {
+                Sk::V(o) => m.merge(o),
+                _ => unreachable!(),
+            };
+            unit(r, &tgt)
+        }
+        ("merge", Sk::T(m)) => {
+            let r = match &src {
+                Sk::T(o) => m.merge(o),
+                _ => unreachable!(),
+            };
+            unit(r, &tgt)
+        }
+        ("enable", Sk::V(m)) => {
+            let r = m.enable_abundance();
+            unit(r, &tgt)
+        }
+        ("enable", Sk::T(m)) => {
+            let r = m.enable_abundance();
+            unit(r, &tgt)
+        }
+        ("disable", Sk::V(m)) => {
+            m.disable_abundance();
+            tgt.mins()
+        }
+        ("disable", Sk::T(m)) => {
+            m.disable_abundance();
+            tgt.mins()
+        }
+        ("inflate", Sk::V(m)) => {
+            let r = match &src {
+                Sk::V(o) => m.inflate(o),
+                _ => unreachable!(),
+            };
+            unit(r, &tgt)
+        }
+        ("md5", _) => tgt.md5(),
+        ("cmd5", Sk::V(m)) => unsafe {
+            let s = kmerminhash_md5sum(SourmashKmerMinHash::from_ref(m));
+            s.as_str().to_string()
+        },
+        ("clone", _) => {
+            let c = tgt.clone();
+            tgt = c;
+            tgt.md5()
+        }
+        ("copy", _) => {
+            src = tgt.clone();
+            src.md5()
+        }
         _ => "bad-op".into(),
+    };
+    if on_other {
+        std::mem::swap(&mut tgt, &mut src);
+    }
+    st.main = Some(tgt);
+    st.other = Some(src);
+    out
+}
+
+fn gen(a: &Args) {
+    let mut r = Rng::new(a.seed);
+    let mut o = Out::new();
+    let ncases = if a.cases > 0 {
+        a.cases
+    } else if a.tier == "thorough" {
+        150_000
+    } else {
+        3_000
+    };
+    let scaleds: [u64; 6] = [1, 2, 3, 4, 5, 8];
+    for _ in 0..ncases {
+        let tree = r.chance(1, 2);
+        let is_scaled = r.chance(1, 2);
+        let (scaled, num) = if is_scaled {
+            (*r.pick(&scaleds), 0u64)
+        } else {
+            (0, r.range(1, 6))
+        };
+        let mh = max_hash_for_scaled(scaled);
+        let track = r.chance(1, 2);
+        let otrack = if r.chance(7, 10) { track } else { !track };
+        let k = *r.pick(&[21u32, 31, 51, 7]);
+        o.case(&format!(
+            "{} num={} scaled={} mh={} track={} otrack={} k={}",
+            if tree { "tree" } else { "vec" },
+            num,
+            scaled,
+            mh,
+            track as u8,
+            otrack as u8,
+            k
+        ));
+        // Hash universe: a prefix-free set of decimal strings ("0", "1", and 19-digit numbers whose
+        // first digit is 2..9), so that different hash lists always have different md5 preimages —
+        // the unseparated-preimage ambiguity (known finding, corpus/C13/preimage.ops) cannot be hit
+        // by accident and `eq` is decided by the hashes alone.
+        let lo = 2_000_000_000_000_000_000u64;
+        let hi = 9_999_999_999_999_999_999u64;
+        let mut pool = [0u64; 8];
+        for p in pool.iter_mut() {
+            *p = r.range(lo, hi);
+        }
+        let nops = r.range(1, 30);
+        for _ in 0..nops {
+            let hash = |r: &mut Rng| -> u64 {
+                match r.below(20) {
+                    0..=2 => r.below(2),
+                    3..=15 => *r.pick(&pool),
+                    _ => r.range(lo, hi),
+                }
+            };
+            let abund = |r: &mut Rng| -> u64 {
+                match r.below(10) {
+                    0..=5 => 1,
+                    6..=7 => r.range(0, 3),
+                    8 => 0,
+                    _ => r.bits(20),
+                }
+            };
+            let on_o = r.chance(1, 4);
+            let pfx = if on_o { "o." } else { "" };
+            // an observer before the mutator, most of the time
+            if r.chance(3, 4) {
+                match r.below(12) {
+                    0..=5 => o.op(&format!("{}md5", pfx)),
+                    6..=7 => {
+                        if tree {
+                            o.op(&format!("{}md5", pfx))
+                        } else {
+                            o.op(&format!("{}cmd5", pfx))
+                        }
+                    }
+                    8 => o.op(&format!("{}clone", pfx)),
+                    9 => o.op(&format!("{}copy", pfx)),
+                    _ => o.op("eq"),
+                }
+            }
+            match r.below(100) {
+                0..=44 => {
+                    let (h, ab) = (hash(&mut r), abund(&mut r));
+                    o.op(&format!("{}add {} {}", pfx, h, ab));
+                }
+                45..=51 => {
+                    let (h, ab) = (hash(&mut r), abund(&mut r));
+                    if tree {
+                        o.op(&format!("{}add {} {}", pfx, h, ab));
+                    } else {
+                        o.op(&format!("{}set {} {}", pfx, h, ab));
+                    }
+                }
+                52..=63 => o.op(&format!("{}rm {}", pfx, hash(&mut r))),
+                64..=68 => {
+                    let n = r.range(0, 4);
+                    let hs: Vec<u64> = (0..n).map(|_| hash(&mut r)).collect();
+                    o.op(&format!("{}rmmany {}", pfx, show_nats(hs)));
+                }
+                69..=74 => o.op(&format!("{}clear", pfx)),
+                75..=86 => o.op(&format!("{}merge", pfx)),
+                87..=90 => o.op(&format!("{}enable", pfx)),
+                91..=94 => o.op(&format!("{}disable", pfx)),
+                _ => {
+                    if tree {
+                        o.op(&format!("{}merge", pfx))
+                    } else {
+                        o.op(&format!("{}inflate", pfx))
+                    }
+                }
+            }
+        }
+        // the final state is always observed
+        o.op("md5");
+        o.op("o.md5");
+        o.op("eq");
     }
 }
 
@@ -17,7 +339,13 @@ fn main() {
     let a = args();
     match a.mode.as_str() {
         "gen" => gen(&a),
-        "exec" => exec_loop(|| (), step),
+        "exec" => exec_loop(
+            || St {
+                main: None,
+                other: None,
+            },
+            step,
+        ),
         _ => panic!("mode"),
     }
 }
